@@ -19,6 +19,7 @@ typedef struct {
     uint64_t rng;          /* splitmix64 state; the only source of randomness */
     int thorough;          /* tier */
     FILE* out;             /* op lines */
+    uint64_t seed;         /* --seed as given */
     int shards;            /* this process is one of `shards` parallel ones (distinct seeds): divide case counts */
     long budget;           /* number of generated cases wanted for this tier (component scales it) */
     /* distribution statistics, printed as "#stat key value" lines at the end */
